@@ -41,33 +41,35 @@ type xfer struct {
 }
 
 type svcPlan struct {
-	id      types.ServiceID
-	xfers   []xfer
-	yield   bool
-	bless   bool // manager re-blesses (changes privileges)
-	assign  int  // core to re-assign (−1: none)
-	blob    []byte
-	codeH   types.OpaqueHash
-	meta    []byte
-	fetches int
-	peek    types.ServiceID // service whose info is read and stored (0: none)
-	ejects  []types.ServiceID // zombie services this one ejects (before its transfers)
-	creates int               // services this one creates (merged into the posterior accounts from several results)
+	id         types.ServiceID
+	xfers      []xfer
+	yield      bool
+	yieldItems bool // the yielded hash is taken from the items of the invocation (differs from round to round)
+	bless      bool // manager re-blesses (changes privileges)
+	assign     int  // core to re-assign (−1: none)
+	blob       []byte
+	codeH      types.OpaqueHash
+	meta       []byte
+	fetches    int
+	peek       types.ServiceID   // service whose info is read and stored (0: none)
+	ejects     []types.ServiceID // zombie services this one ejects (before its transfers)
+	creates    int               // services this one creates (merged into the posterior accounts from several results)
 }
 
 type scenario struct {
-	svcs     []*svcPlan
-	reports  []types.WorkReport
-	always   types.AlwaysAccumulateMap
-	manager  types.ServiceID
-	assigner []types.ServiceID
-	desig    types.ServiceID
-	registr  types.ServiceID
-	tau      types.TimeSlot
-	eta      types.EntropyBuffer
-	maxIn    map[types.ServiceID]int
-	desc     string
-	zombies  map[types.ServiceID]types.ServiceID // ejectable account -> the service that may eject it
+	svcs           []*svcPlan
+	reports        []types.WorkReport
+	always         types.AlwaysAccumulateMap
+	manager        types.ServiceID
+	assigner       []types.ServiceID
+	desig          types.ServiceID
+	registr        types.ServiceID
+	tau            types.TimeSlot
+	eta            types.EntropyBuffer
+	maxIn          map[types.ServiceID]int
+	desc           string
+	zombies        map[types.ServiceID]types.ServiceID // ejectable account -> the service that may eject it
+	viaIntegration bool                                // run accumulation.DeferredTransfers() instead of OuterAccumulation()
 }
 
 var zombieLookup = types.LookupMetaMapkey{Hash: h256([]byte("zombie-code")), Length: 40}
@@ -170,8 +172,14 @@ func buildProgram(p *svcPlan, nCores int, all []types.ServiceID) []byte {
 		a.Ecalli(20)
 	}
 	if p.yield {
-		y := h256(u32le(uint32(p.id)))
-		a.LoadImm64(7, d.Put(y[:]))
+		if p.yieldItems {
+			// yield the first 32 octets of what this invocation was given: a service accumulated in two rounds of
+			// one block (work items first, incoming transfers later) then has two different outputs in the log
+			a.LoadImm64(7, buf)
+		} else {
+			y := h256(u32le(uint32(p.id)))
+			a.LoadImm64(7, d.Put(y[:]))
+		}
 		a.Ecalli(25)
 	}
 	a.LoadImm64(7, buf)
@@ -183,6 +191,7 @@ func buildProgram(p *svcPlan, nCores int, all []types.ServiceID) []byte {
 func genScenario(t *sim.Tape) *scenario {
 	sc := &scenario{tau: types.TimeSlot(500 + t.Choose(20, "tau")), always: types.AlwaysAccumulateMap{}, maxIn: map[types.ServiceID]int{}}
 	copy(sc.eta[0][:], t.Bytes(4, "eta"))
+	sc.viaIntegration = t.Bool("via_integration_step")
 	n := t.Range(3, 8, "nsvc")
 	var ids []types.ServiceID
 	// identifier magnitudes vary (small, 16-bit "surrogate" range, above 0x10FFFF, above 2^31): code that
@@ -244,6 +253,7 @@ func genScenario(t *sim.Tape) *scenario {
 			}
 		}
 		p.yield = t.Bool("yield")
+		p.yieldItems = t.Bool("yield_from_items")
 		if t.Prob(1, 3, "creates_services") {
 			p.creates = 1 + t.Choose(2, "ncreates")
 		}
@@ -421,6 +431,52 @@ func canonOutput(o accumulation.OuterAccumulationOutput, cs *blockchain.ChainSta
 	return out
 }
 
+// canonIntegration dumps what the integration step left in the node's stores. The accumulation-output log is a
+// SEQUENCE in the state: it is dumped in the order the node produced it.
+func canonIntegration(cs *blockchain.ChainState) []string {
+	post, mid := cs.GetPosteriorStates(), cs.GetIntermediateStates()
+	var out []string
+	var th []string
+	for _, x := range post.GetLastAccOut() {
+		th = append(th, fmt.Sprintf("%d:%x", x.ServiceID, x.Hash[:6]))
+	}
+	out = append(out, fmt.Sprintf("outputs-log %v", th))
+	st := mid.GetAccumulationStatistics()
+	var ss []string
+	for k, v := range st {
+		ss = append(ss, fmt.Sprintf("%d:gas=%d,items=%d", k, v.Gas, v.NumAccumulatedReports))
+	}
+	sort.Strings(ss)
+	out = append(out, fmt.Sprintf("gas %v", ss))
+	chi := post.GetChi()
+	pp := types.PartialStateSet{ServiceAccounts: mid.GetDeltaDoubleDagger(), ValidatorKeys: post.GetIota(), Authorizers: post.GetVarphi(), Bless: chi.Bless, Assign: chi.Assign, Designate: chi.Designate, CreateAcct: chi.CreateAcct, AlwaysAccum: chi.AlwaysAccum}
+	for _, l := range canonPartial(pp) {
+		out = append(out, "posterior "+l)
+	}
+	for i, item := range post.GetXi() {
+		if len(item) > 0 {
+			var hs []string
+			for _, h := range item {
+				hs = append(hs, fmt.Sprintf("%x", h[:4]))
+			}
+			out = append(out, fmt.Sprintf("accumulated-history[%d] %v", i, hs))
+		}
+	}
+	for i, item := range post.GetVartheta() {
+		if len(item) > 0 {
+			out = append(out, fmt.Sprintf("ready-queue[%d] %d records", i, len(item)))
+		}
+	}
+	raw := cs.GetPostStateUnmatchedKeyVals()
+	rs := make([]string, 0, len(raw))
+	for _, kv := range raw {
+		rs = append(rs, fmt.Sprintf("%x=%x", kv.Key[:], []byte(kv.Value)))
+	}
+	sort.Strings(rs)
+	out = append(out, fmt.Sprintf("raw %v", rs))
+	return out
+}
+
 // ---------------------------------------------------------------------------
 // one arm = one execution under a given schedule / worker count / map order
 // ---------------------------------------------------------------------------
@@ -481,8 +537,42 @@ func runArm(tt *testing.T, r *sim.Run, sc *scenario, a arm) (res armResult) {
 		var out accumulation.OuterAccumulationOutput
 		var err error
 		done := false
+		// half of the arms of a scenario go through the whole integration step (GP 12.20-12.33: outer accumulation
+		// from the prior state, accumulation-output log, statistics, accounts after accumulation, accumulated history,
+		// ready queue); the others call the outer accumulation function directly. Which one is fixed per scenario.
+		in := sc.mkInput()
+		if sc.viaIntegration {
+			pri := cs.GetPriorStates()
+			ps := in.InitPartialStateSet
+			pri.SetDelta(ps.ServiceAccounts)
+			pri.SetIota(ps.ValidatorKeys)
+			pri.SetVarphi(ps.Authorizers)
+			pri.SetChi(types.Privileges{Bless: ps.Bless, Assign: ps.Assign, Designate: ps.Designate, CreateAcct: ps.CreateAcct, AlwaysAccum: ps.AlwaysAccum})
+			xi := make(types.AccumulatedQueue, types.EpochLength)
+			th := make(types.ReadyQueue, types.EpochLength)
+			for i := range xi {
+				xi[i], th[i] = types.AccumulatedQueueItem{}, types.ReadyQueueItem{}
+			}
+			pri.SetXi(xi)
+			pri.SetVartheta(th)
+			pri.SetTau(sc.tau - 1)
+			th2 := make(types.ReadyQueue, types.EpochLength)
+			for i := range th2 {
+				th2[i] = types.ReadyQueueItem{}
+			}
+			cs.GetPosteriorStates().SetVartheta(th2)
+			var blk types.Block
+			blk.Header.Slot = sc.tau
+			cs.AddBlock(blk)
+			cs.GetIntermediateStates().SetAccumulatableWorkReports(in.WorkReports)
+			cs.GetIntermediateStates().SetQueuedWorkReports(types.ReadyQueueItem{})
+		}
 		s.Spawn("main", "main", nil, func() {
-			out, err = accumulation.OuterAccumulation(sc.mkInput())
+			if sc.viaIntegration {
+				err = accumulation.DeferredTransfers()
+			} else {
+				out, err = accumulation.OuterAccumulation(in)
+			}
 			done = true
 		})
 		for res.steps = 0; res.steps < 200000 && !done; res.steps++ {
@@ -521,7 +611,11 @@ func runArm(tt *testing.T, r *sim.Run, sc *scenario, a arm) (res armResult) {
 			res.err = err.Error()
 		}
 		if done {
-			res.lines = canonOutput(out, cs)
+			if sc.viaIntegration {
+				res.lines = canonIntegration(cs)
+			} else {
+				res.lines = canonOutput(out, cs)
+			}
 		}
 	})
 	return res
@@ -604,7 +698,7 @@ func runOne(tt *testing.T, r *sim.Run) {
 						what = "privileges"
 					case strings.HasPrefix(base.lines[j], "gas "):
 						what = "gas-statistics"
-					case strings.HasPrefix(base.lines[j], "outputs "):
+					case strings.HasPrefix(base.lines[j], "outputs "), strings.HasPrefix(base.lines[j], "outputs-log "):
 						what = "outputs"
 					case strings.Contains(base.lines[j], "iota="):
 						what = "queues-or-validator-keys"
